@@ -322,6 +322,28 @@ def c10(tier):
             res.violation(key, {"rustc": v.to_json(), "source": src}, {"repro.rs": src + "fn main() {}\n"})
         else:
             res.nontrivial.add(cfg.key())
+    # the enum's own name against the identifiers the generated code introduces itself - generic parameters, local bindings, imported
+    # names (seed T6-r7m1: `fn find<P>` captures an enum called `P`): every single capital letter and the usual generic names, every
+    # feature in three mode assignments + table_inline, gapless and with holes, compile-only
+    NAMES = [c for c in "ABCDEFGHIJKLMNOPQRSTUVWXYZ"] + ["Acc", "Fn", "Pred", "Idx", "Rhs", "Lhs", "Out", "St", "Fut", "Ret", "Args", "Func", "Item", "Iter", "Key",
+                                                         "Val", "Err", "Res", "Init", "Fold", "It", "Inner", "Output", "Error", "This", "Me"]
+    name_cases = []
+    for nm in NAMES:
+        for g, body in ((True, "Aa = 1, Bb = 2, Cc = 3"), (False, "Aa = -1, Bb = 2, Cc = 9")):
+            cfgs_ = [catalogue.full_config(g, m) for m in ({}, {"as_str": "table", "from_str": "table", "FromStr": "table", "iter": "table"},
+                                                          {"as_str": "match", "from_str": "match", "FromStr": "match", "iter": "next_and_back"})]
+            cfgs_.append(Config([("iter", {"mode": "table_inline"}), "names", "Debug", "Display", "TryFrom", "FromStr", "IntoStr", "Into"]))
+            for cfg in cfgs_:
+                name_cases.append((nm, cfg, "#![allow(warnings)]\nuse enum_tools::EnumTools;\n#[derive(Clone, Copy, EnumTools)]\n#[enum_tools(%s)]\n#[repr(i16)]\npub enum %s { %s }\n"
+                                   % (cfg.attr_text(), nm, body)))
+    for (nm, cfg, src), v in zip(name_cases, e2.compile_many([{"src": c[2]} for c in name_cases])):
+        res.states += 1
+        res.transitions += 1
+        res.validated += 1
+        res.outcome("compile:enum-name:%s" % ("ok" if v.ok else "REJECTED"))
+        if not v.ok:
+            res.violation({"kind": "documented-configuration-rejected", "what": "enum-name", "enum_name": nm, "config": cfg.describe(), "errors": v.errors[:2]},
+                          {"rustc": v.to_json()}, {"repro.rs": src + "fn main() {}\n"})
     # T1 (e): every legal configuration with <= k features built AND run (each item satisfies its own guarantee)
     subs = []
     bounds = dict(x1_depth=2, x2_extra=1, x2_cap=5, range_x1_depth=1, range_x2_extra=1, consumers=False)
